@@ -92,6 +92,17 @@ def decoder_constants(lib, R):
         terms, c = lin
         K = terms.get(('sym', f.params[0][0]))
         sh = [a for a in terms if a[0] == 'fdiv' and _P(a[2]).is_const()]
+        # the other spelling of the same nibble: (deltaCode >> S) & M  ==  fmod(fdiv(deltaCode, 2^S), M + 1)
+        alt = [a for a in terms if a[0] == 'fmod' and _P(a[2]).is_const() and _single_atom(_P(a[1])) is not None
+               and _single_atom(_P(a[1]))[0] == 'fdiv' and _P(_single_atom(_P(a[1]))[2]).is_const()]
+        if K and len(alt) == 1 and terms[alt[0]] == 1 and c == 0 and len(terms) == 2:
+            inner = _single_atom(_P(alt[0][1]))
+            S_ = _P(inner[2]).const_value()
+            M_ = _P(alt[0][2]).const_value()
+            if _P(inner[1]) == Poly.atom(('sym', f.params[1][0])) and gnf.is_pow2(S_) and gnf.is_pow2(M_):
+                d['offset_K'] = K
+                d['offset_shift_div'] = S_
+                d['offset_mask'] = (M_ - 1) * S_
         if K and len(sh) == 1 and terms[sh[0]] == 1 and c == 0 and len(terms) == 2:
             inner = _single_atom(_P(sh[0][1]))
             if inner is not None and inner[0] == 'and':
@@ -505,15 +516,45 @@ def template_rules(cfg, R, lib, ar):
 def _range_guards(fn):
     """[(variable, lo, hi, If node)] for tests of the shape `v < lo or v > hi` in fn."""
     out = []
+
+    def bound(x):
+        """one comparison of a name with an integer -> (name, 'lo'|'hi', value): the test is true below lo / above hi"""
+        if not (isinstance(x, ast.Compare) and len(x.ops) == 1):
+            return None
+        l, op, r = x.left, x.ops[0], x.comparators[0]
+        if isinstance(l, ast.Name) and _int(r) is not None:
+            name, c, flip = l.id, _int(r), False
+        elif isinstance(r, ast.Name) and _int(l) is not None:
+            name, c, flip = r.id, _int(l), True
+        else:
+            return None
+        kind = type(op)
+        if flip:
+            kind = {ast.Lt: ast.Gt, ast.Gt: ast.Lt, ast.LtE: ast.GtE, ast.GtE: ast.LtE}.get(kind)
+        if kind is ast.Lt:
+            return name, 'lo', c
+        if kind is ast.LtE:
+            return name, 'lo', c + 1
+        if kind is ast.Gt:
+            return name, 'hi', c
+        if kind is ast.GtE:
+            return name, 'hi', c - 1
+        return None
     for n in ast.walk(fn.node):
-        if isinstance(n, ast.If) and isinstance(n.test, ast.BoolOp) and isinstance(n.test.op, ast.Or) and len(n.test.values) == 2:
-            a, b = n.test.values
-            if all(isinstance(x, ast.Compare) and len(x.ops) == 1 and isinstance(x.left, ast.Name) for x in (a, b)):
-                if a.left.id == b.left.id and isinstance(a.ops[0], ast.Lt) and isinstance(b.ops[0], ast.Gt):
-                    lo = _int(a.comparators[0])
-                    hi = _int(b.comparators[0])
-                    if lo is not None and hi is not None:
-                        out.append((a.left.id, lo, hi, n))
+        if not isinstance(n, ast.If):
+            continue
+        t = n.test
+        if isinstance(t, ast.BoolOp) and isinstance(t.op, ast.Or) and len(t.values) == 2:
+            bs = [bound(x) for x in t.values]
+            if all(bs) and bs[0][0] == bs[1][0] and {bs[0][1], bs[1][1]} == {'lo', 'hi'}:
+                d = {k: v for _n, k, v in bs}
+                out.append((bs[0][0], d['lo'], d['hi'], n))
+        elif isinstance(t, ast.UnaryOp) and isinstance(t.op, ast.Not) and isinstance(t.operand, ast.Compare) and len(t.operand.ops) == 2 \
+                and all(isinstance(o, ast.LtE) for o in t.operand.ops) and isinstance(t.operand.comparators[0], ast.Name):
+            # not (lo <= v <= hi)
+            lo, hi = _int(t.operand.left), _int(t.operand.comparators[1])
+            if lo is not None and hi is not None:
+                out.append((t.operand.comparators[0].id, lo, hi, n))
     return out
 
 
